@@ -95,6 +95,7 @@ func init() {
 			return vand(binop(token.LEQ, types.Typ[types.Uint8], args[1], args[0]), binop(token.LEQ, types.Typ[types.Uint8], args[0], args[2]))
 		},
 		vpkg + "StrEq": func(fr *frame, args []value) value { return strEq(args[0], args[1]) },
+		vpkg + "TempFile": func(fr *frame, args []value) value { return "/zzverif/tempfile" },
 		vpkg + "Setenv": func(fr *frame, args []value) value {
 			k, ok := args[0].(string)
 			if !ok {
